@@ -243,6 +243,10 @@ fn main() {
                             for b in body_variants {
                                 for (name, pre, suf) in CONTEXTS {
                                     texts.push((name.to_string(), format!("{pre}{b}{suf}")));
+                                    // the same position with the input ending right after the sequence
+                                    if !pre.is_empty() && !suf.is_empty() {
+                                        texts.push((format!("{name}@eof"), format!("{pre}{b}")));
+                                    }
                                 }
                             }
                         }
